@@ -48,7 +48,7 @@ def cfgs_c03(tier):
     names = ["N0", "N0d", "N1", "N2"] + (["N3", "N4"] if tier == "thorough" else [])
     for n in names:
         for prof, feat in ((("vdev", True), ("vrel", False)) if tier == "thorough" or n in ("N0",) else (("vdev", True),) if n != "N2" else (("vrel", False),)):
-            out.append(Q(n, prof, feat, lite=(n not in ("N0", "N0d")), crates=("aes" if n in ("N0d", "N3", "N4") else sens)))
+            out.append(Q(n, prof, feat, lite=(n not in ("N0", "N0d")), crates=(None if n == "N0" else "aes" if n in ("N0d", "N3", "N4") else sens)))
     return out
 
 
@@ -147,6 +147,50 @@ def post_c20(pid, tier, cfgs, results):
 POST_INFO = {}
 
 
+def run_refcheck(quick=True):
+    """E4: validate every reference model against OpenSSL / libgcrypt / nettle and the published vectors.
+    A failure is a machinery error (the oracle may not judge), never a verdict."""
+    import subprocess
+    env = dict(os.environ)
+    env.update(CARGO_NET_OFFLINE="true", CARGO_TARGET_DIR=os.path.join(core.TARGET, "refcheck"), RUSTFLAGS="")
+    stamp = os.path.join(core.TARGET, "refcheck", ".ok-stamp")
+    srcs = []
+    for root, _, names in os.walk(os.path.join(core.HARNESS, "refmodels")):
+        srcs += [os.path.join(root, n) for n in names]
+    newest = max(os.path.getmtime(f) for f in srcs)
+    if quick and os.path.exists(stamp) and os.path.getmtime(stamp) >= newest:
+        return "cached"
+    r = subprocess.run(["cargo", "test", "--offline", "--release", "-q", "-p", "refmodels", "--features", "ffi"], cwd=core.HARNESS, env=env, capture_output=True, text=True)
+    if r.returncode != 0:
+        core.die("refcheck failed: a reference model disagrees with its anchors (oracle may not judge):\n" + (r.stdout + r.stderr)[-5000:])
+    open(stamp, "w").write("ok")
+    n = sum(int(x) for x in __import__("re").findall(r"test result: ok\. (\d+) passed", r.stdout))
+    return f"{n} validation tests passed"
+
+
+def run_tfnc(pid, tier):
+    """Threefish built without its `cipher` feature (own binary: cargo unifies features inside one build)."""
+    import subprocess
+    env = dict(os.environ)
+    tdir = os.path.join(core.TARGET, "tfnc")
+    env.update(CARGO_NET_OFFLINE="true", CARGO_TARGET_DIR=tdir, RUSTFLAGS="")
+    r = subprocess.run(["cargo", "build", "--offline", "-q", "-p", "tfnc"], cwd=core.HARNESS, env=env, capture_output=True, text=True)
+    if r.returncode != 0:
+        errs = __import__("re").findall(r"-->\s*(\S+?):\d+", r.stderr)
+        if errs and all(e.startswith("/repo/") for e in errs):
+            return None, [dict(property=pid, subject="threefish (no cipher feature)", what="build-failure", config="T0", case={"kind": "build", "config": "threefish --no-default-features --features zeroize"},
+                               expected="the documented feature combination builds", observed=r.stderr[-2000:], note="threefish without its default features fails to compile")]
+        core.die("tfnc build failed:\n" + r.stderr[-3000:])
+    out = os.path.join(core.TARGET, "out", f"tfnc-{pid}-{os.getpid()}.json")
+    os.makedirs(os.path.dirname(out), exist_ok=True)
+    r = subprocess.run([os.path.join(tdir, "debug", "tfnc"), pid, tier, "--out", out], env=env, capture_output=True, text=True)
+    if r.returncode != 0 or not os.path.exists(out):
+        return None, [dict(property=pid, subject="threefish (no cipher feature)", what="crash", config="T0", case={"kind": "crash"}, expected="completes", observed=r.stderr[-2000:], note="tfnc crashed")]
+    res = json.load(open(out))
+    os.remove(out)
+    return res, []
+
+
 def run_loom(pid, tier):
     """E3: build the loom harness (RUSTFLAGS --cfg loom, own target dir) from /repo's working tree and run it."""
     import subprocess
@@ -186,7 +230,7 @@ RULE_STAR = ("cases are enumerated by the star alphabets of DESIGN §2.3 (zero/o
 
 TABLE = {
     "C01": dict(
-        level="exploration", cfgs=std_cfgs,
+        level="exploration", cfgs=std_cfgs, tfnc=True,
         rule=RULE_STAR + "plus Threefish (key, tweak, block) triples through byte and u64 entry points, BelT wide-block (length, data, key) "
              "triples and full block-domain sweeps of RC5-8 (RC5-16 / Speck32 in the thorough tier); each case checks D(E(b))==b and "
              "E(D(b))==b, also across Enc-only/Dec-only/converted instance pairs; a case is non-trivial when E(b) != b.",
@@ -228,7 +272,7 @@ TABLE = {
                 rule=RULE_STAR + "Blowfish over all 53 key lengths (BE and LE), CAST5 over all 12, IDEA, XTEA, RC2 from slice, plus the complete RC2 (key length 1..128) x (effective bits 1..1024) grid through "
                      "new_with_eff_key_len; every trace runs on the implementation and on the reference model.",
                 assumptions=[LEVEL_NOTE_DATA, "models validated against OpenSSL (BF, CAST5, RC2 incl. effective bits) and libgcrypt (IDEA); XTEA anchored by published vectors"]),
-    "C10": dict(level="model_checking", cfgs=only_n0,
+    "C10": dict(level="model_checking", cfgs=only_n0, tfnc=True,
                 rule=RULE_STAR + "229 RC5<W,R,B> instantiations (5 word sizes x 5 round counts x 9 key lengths incl. 0, plus the published triples), 10 Speck types, Threefish 3 sizes incl. (key, tweak, block) "
                      "triples through byte and u64 entry points, GIFT-128; every trace runs on the implementation and on the reference model.",
                 assumptions=[LEVEL_NOTE_DATA, "RC5/Speck/Threefish/GIFT models are anchored by published vectors only (no third-party implementation on the image)",
@@ -262,7 +306,7 @@ TABLE = {
                      "Triple-DES bundles from listed/generic/parity-flipped parts; every other type on generic keys. Each case evaluates weak_key_test and new_checked on the implementation and the statement's predicate (model); "
                      "distinct = distinct (type,key); non-trivial = AES/DES-family cases and every positive.",
                 assumptions=["NIST weak-key list validated against libgcrypt's detector and the reference key schedule (refcheck)"]),
-    "C16": dict(level="exploration", cfgs=lambda t: std_cfgs(t, feat_only=True),
+    "C16": dict(level="exploration", cfgs=lambda t: std_cfgs(t, feat_only=True), tfnc=True,
                 rule="cases = (type, construction route in {new, new_from_slice, clone, clone of clone, clone then drop original, From<Enc> by value, From<&Enc>, clone of converted}, key) built in canary-filled storage with 3 canaries; "
                      "a byte is key-dependent if stable across canaries and different between keys; after drop_in_place every such byte that is live (flipping it changes behaviour) must read 0; non-trivial = cases of subjects with at least one key-dependent byte.",
                 assumptions=["dead storage (padding, inactive union arm) is identified by behavioural liveness and ignored", "zeroize feature on (feature-off builds are not applicable)"]),
@@ -289,6 +333,9 @@ def run_property(pid, tier):
     POST_INFO.clear()
     spec = TABLE[pid]
     core.ensure_seam()
+    refcheck = None
+    if spec["level"] == "model_checking":
+        refcheck = run_refcheck(quick=(tier == "quick"))
     cfgs = spec["cfgs"](tier)
     failures = core.build_all([c for c, _ in cfgs])
     violations = []   # dicts with at least property, subject, what, case, expected, observed, note, config
@@ -315,6 +362,16 @@ def run_property(pid, tier):
             v["config"] = cfg.label
             violations.append(v)
         results.append((cfg, res))
+    if spec.get("tfnc"):
+        res, v = run_tfnc(pid, tier)
+        violations += v
+        if res is not None:
+            for x in res["violations"]:
+                x["config"] = "T0-threefish-nocipher"
+                violations.append(x)
+            res["wall_s"] = res.get("wall_s", 0)
+            results.append((Cfg("N0", "vdev", True), res))
+            results[-1][0].name_override = "T0-threefish-nocipher"
     post = spec.get("post")
     if post:
         violations += post(pid, tier, cfgs, results)
@@ -363,7 +420,7 @@ def run_property(pid, tier):
         rule=spec["rule"],
         samples=samples[:12],
         exhaustive=True,
-        configurations=[dict(config=c.label, rustflags=c.rustflags(), detection=core.CFGS[c.name][1] or "real", evaluations=r["evaluations"],
+        configurations=[dict(config=getattr(c, "name_override", None) or c.label, rustflags=c.rustflags(), detection=core.CFGS[c.name][1] or "real", evaluations=r["evaluations"],
                              api_calls=r["calls"], distinct_nontrivial=r["distinct_nontrivial"], skipped_subjects=r.get("skipped", 0), wall_s=round(r["wall_s"], 2))
                         for c, r in results],
         api_calls=calls,
@@ -371,6 +428,8 @@ def run_property(pid, tier):
         bound=spec.get("bound", {}).get(tier, "declared alphabets of DESIGN §2.3 for this tier, enumerated completely"),
         known_findings_matched=sorted(known_hits.keys()),
     )
+    if refcheck:
+        cov["oracle_validation"] = refcheck
     if spec["level"] == "model_checking":
         cov.update(states=counters.get("histories", ev), transitions=counters.get("transitions", calls), traces_validated_against_impl=refc)
     if POST_INFO:
@@ -390,6 +449,7 @@ def run_property(pid, tier):
 
 def setup():
     core.ensure_seam()
+    print("setup: refcheck:", run_refcheck(quick=False))
     cfgs = []
     for pid, spec in TABLE.items():
         cfgs += [c for c, _ in spec["cfgs"]("quick")]
